@@ -267,9 +267,9 @@ SF_ASSUME = ["reference encoder/expected tree written from the sFlow v5 specific
 def c07(tier):
     t0 = time.time()
     b = build("sflowc")
-    res = [run_space(b, sp, tier) for sp in ["sflow.seq", "sflow.flowrec", "sflow.counterrec", "sflow.onehot", "sflow.frames", "sflow.hdrlen", "sflow.counts", "sflow.sweep"]]
+    res = [run_space(b, sp, tier) for sp in ["sflow.seq", "sflow.flowrec", "sflow.counterrec", "sflow.onehot", "sflow.frames", "sflow.hdrlen", "sflow.counts", "sflow.sweep", "sflow.magic"]]
     return finish("C07", tier, res,
-                  rule="seq: every sample sequence of length 0..3 over a 14-sample alphabet (flow samples with raw/ext-switch/ext-router/unknown records, counter samples with all six counter blocks and unknown records, unknown sample formats 3/4/5, a vendor sample) x IPv4/IPv6 agent; flowrec/counterrec: every ordered selection of <=3 distinct record types (flowrec x all 27 frame shapes); onehot: every field of every record, sample header and datagram header all-ones alone; frames: 27 frame shapes (Ethernet/802.1Q/raw IPv4/raw IPv6 x IPv4, IPv4+options, IPv6 x TCP/UDP/ICMP) x every L2/L3/L4 field all-ones alone; hdrlen: six frame shapes x every sampled header length up to 1500 (XDR padding 0..3); sweep: every value of the 16-bit fields of a sampled frame (IPv4 total length and id, IPv6 payload length, ports, 802.1Q tag) and of the 8-bit ones (TOS, TTL, hop limit, ICMP type / code) on six (thorough: all 27) frame shapes; counts: N samples in one datagram (the same sample of the alphabet repeated, and cycling through the alphabet) and N unsupported records in front of a supported one, N in {1..4, 7..9, 15..18, 31..33, 63..65, 100, 127..129, 255..257, 400} (thorough: every N up to 420) as far as 60000 octets allow. Non-trivial = every case; distinct = wire octets.",
+                  rule="seq: every sample sequence of length 0..3 over a 14-sample alphabet (flow samples with raw/ext-switch/ext-router/unknown records, counter samples with all six counter blocks and unknown records, unknown sample formats 3/4/5, a vendor sample) x IPv4/IPv6 agent; flowrec/counterrec: every ordered selection of <=3 distinct record types (flowrec x all 27 frame shapes); onehot: every field of every record, sample header and datagram header all-ones alone; frames: 27 frame shapes (Ethernet/802.1Q/raw IPv4/raw IPv6 x IPv4, IPv4+options, IPv6 x TCP/UDP/ICMP) x every L2/L3/L4 field all-ones alone; hdrlen: six frame shapes x every sampled header length up to 1500 (XDR padding 0..3); sweep: every value of the 16-bit fields of a sampled frame (IPv4 total length and id, IPv6 payload length, ports, 802.1Q tag) and of the 8-bit ones (TOS, TTL, hop limit, ICMP type / code) on six (thorough: all 27) frame shapes; counts: N samples in one datagram (the same sample of the alphabet repeated, and cycling through the alphabet) and N unsupported records in front of a supported one, N in {1..4, 7..9, 15..18, 31..33, 63..65, 100, 127..129, 255..257, 400} (thorough: every N up to 420) as far as 60000 octets allow; magic: every 32-bit field of the datagram header, the sample headers, the raw-header record and the standard records holding, alone, each of 15 values with a meaning of their own (0x3FFFFFFF - the internal / no interface -, its neighbours, the format bits of an interface word, sign and width boundaries). Non-trivial = every case; distinct = wire octets.",
                   assumptions=SF_ASSUME, t0=t0)
 
 
